@@ -155,6 +155,9 @@ def check_sql(spec, sql):
                            {'got': sorted(map(str, got_names.elements())), 'want': sorted(map(str, (db_names + join_names).elements()))}, None))
         out['C03'].append(('CREATE TABLE statements are not exactly the tables (each once) plus join tables',
                            {'got': sorted(map(str, got_names.elements())), 'want': sorted(map(str, (db_names + join_names).elements()))}, None))
+        if m2m and (got_names - db_names) != join_names:
+            out['C04'].append(('a many-to-many reference does not produce exactly one join table named <left>_<right> in the left table\'s schema',
+                               {'got': sorted(map(str, (got_names - db_names).elements())), 'want': sorted(map(str, join_names.elements()))}, None))
         return out
     by_name = {}
     for s in tables:
